@@ -176,6 +176,7 @@ func ParseNDStream(r io.Reader, res chan<- Stream, reuse <-chan *ParsedJson) {
 			if len(tmp) > 0 {
 				result := make(chan Stream, 0)
 				queue <- result
+				vseq := verifStreamNext()
 				go func() {
 					var pj internalParsedJson
 					pj.copyStrings = true
@@ -190,6 +191,7 @@ func ParseNDStream(r io.Reader, res chan<- Stream, reuse <-chan *ParsedJson) {
 					default:
 					}
 					parseErr := pj.parseMessage(tmp, true)
+					verifStreamParsed(vseq)
 					if parseErr != nil {
 						result <- Stream{
 							Value: nil,
@@ -216,6 +218,7 @@ func ParseNDStream(r io.Reader, res chan<- Stream, reuse <-chan *ParsedJson) {
 }
 
 func queueError(queue chan chan Stream, err error) {
+	verifStreamReaderDone()
 	result := make(chan Stream, 0)
 	queue <- result
 	result <- Stream{
